@@ -280,6 +280,7 @@ def _weekday_names(ctx, rep, eng):
                 continue
         # wrapper groups accept everything: ignore groups that are hit by all names
         bad = None
+        und = None
         hits_by_word = {}
         for i, (en, de) in enumerate(zip(WEEKDAYS_EN, WEEKDAYS_DE)):
             for w in (en, de):
@@ -290,8 +291,13 @@ def _weekday_names(ctx, rep, eng):
             vals = set()
             for g in hits:
                 vals |= group_dow.get(g, set())
-            if vals != {i}:
+            if not vals and hits:
+                und = und or "no constant weekday found on the paths where group {} took part".format(hits[0])
+            elif vals != {i}:
                 bad = bad or "'{}' is accepted by groups {} which give weekday {} (expected {})".format(
                     w, hits, sorted(vals), i)
-        rep.add("weekday-names", rule_construct(rule, "weekday names"), rule.where, bad is None, bad or "14 names")
+        if bad is None and und:
+            rep.undecided("weekday-names", rule_construct(rule, "weekday names"), rule.where, und)
+        else:
+            rep.add("weekday-names", rule_construct(rule, "weekday names"), rule.where, bad is None, bad or "14 names")
     rep.count("weekday_name_rules", n_rules, 1)
